@@ -84,6 +84,20 @@ func TestVerifC14(t *testing.T) {
 		}
 		report(r, "client-trap", i, sc, res)
 	}
+	n = r.N(600, 8000) / light()
+	for i := 0; i < n; i++ {
+		if !r.Want("client-swap", i) {
+			continue
+		}
+		sc := genClientSwap(r.Rand("client-swap", i))
+		r.Progress("client-swap", i, fmt.Sprintf("rpcs=%d steps=%d", sc.NRPC, len(sc.Steps)))
+		var res *result
+		synctest.Test(t, func(t *testing.T) { res = runClient(sc) })
+		if res.sig != "" {
+			res.sig = "swap-" + res.sig
+		}
+		report(r, "client-swap", i, sc, res)
+	}
 	n = r.N(1200, 15000) / light()
 	for i := 0; i < n; i++ {
 		if !r.Want("server", i) {
@@ -111,7 +125,7 @@ func TestVerifC14(t *testing.T) {
 	}
 	r.Finish(vlib.Spec{
 		Level: "exploration",
-		Rule:  "client: 4-31 RPCs (one request, one response) on a real channel whose every dial lands on a scripted server (optionally MAX_CONCURRENT_STREAMS 1/2/5); bursts of steps without quiescence in between: start RPCs, GOAWAY with last-stream-id in {0, highest answered, random odd, highest seen, above it, 2^31-1, even, larger than the previous one, same, lower}, answer accepted streams, sleeps; the scripted servers answer every stream not above their smallest valid GOAWAY id; verdicts: no new stream on a connection after quiescence with GOAWAY, at most one accepted attempt per RPC, an RPC whose accepted attempt was answered finishes OK with exactly that answer, an RPC whose only begun attempt (stats.Handler ledger) was on the wire above the id must begin a transparent retry (no grpc-previous-rpc-attempts), every RPC ends OK or UNAVAILABLE, invalid GOAWAYs tear the connection down; client-trap: the same with GOAWAY(0) pushing RPCs onto connections whose server answers the first HEADERS with GOAWAY(0) from its reader goroutine, optionally with a stats.Handler that yields in OutHeader (widens the window between stream creation and the replayed SendMsg); server: real server, 1-2 scripted client connections, gated handlers with scripted statuses, GracefulStop or MaxConnectionAge at a random step while streams are opened before/between/after the GOAWAYs, drain PING acked at once, at a scripted step or never before the 5 s fallback; verdicts: GOAWAY(2^31-1) then PING then final GOAWAY(F), F = highest stream with a handler run or response, no handler/response above F, every stream <= F not reset by the client ran once and completed with its handler's status and message; server-race: directed bursts {PING ack, reset/finish of an older stream, new streams} right after the first GOAWAY, optionally with a tap handle that yields inside header processing; non-trivial = a stream was above a GOAWAY id or an accepted stream completed after a GOAWAY (client) / a connection was drained (server); distinct = (mcs, connections, GOAWAY classes, retried, unavailable, racing) resp. (mode, ack mode, connections, streams opened before/between/after capped at 3, streams above F)",
+		Rule:  "client: 4-31 RPCs (one request, one response) on a real channel whose every dial lands on a scripted server (optionally MAX_CONCURRENT_STREAMS 1/2/5); bursts of steps without quiescence in between: start RPCs, GOAWAY with last-stream-id in {0, highest answered, random odd, highest seen, above it, 2^31-1, even, larger than the previous one, same, lower}, answer accepted streams, sleeps; the scripted servers answer every stream not above their smallest valid GOAWAY id; verdicts: no new stream on a connection after quiescence with GOAWAY, at most one accepted attempt per RPC, an RPC whose accepted attempt was answered finishes OK with exactly that answer, an RPC whose only begun attempt (stats.Handler ledger) was on the wire above the id must begin a transparent retry (no grpc-previous-rpc-attempts), every RPC ends OK or UNAVAILABLE, invalid GOAWAYs tear the connection down; client-trap: the same with GOAWAY(0) pushing RPCs onto connections whose server answers the first HEADERS with GOAWAY(0) from its reader goroutine, optionally with a stats.Handler that yields in OutHeader (widens the window between stream creation and the replayed SendMsg); client-swap: a manual resolver replaces the only address while streams are in flight, so the client GracefulClose()s that transport itself; only then its scripted server sends a single GOAWAY(N) (0 / highest answered / random odd / highest seen) and never answers the streams above N; same verdicts (streams above N must end: a retry is begun or UNAVAILABLE, never left open); server: real server, 1-2 scripted client connections, gated handlers with scripted statuses, GracefulStop or MaxConnectionAge at a random step while streams are opened before/between/after the GOAWAYs, drain PING acked at once, at a scripted step or never before the 5 s fallback; verdicts: GOAWAY(2^31-1) then PING then final GOAWAY(F), F = highest stream with a handler run or response, no handler/response above F, every stream <= F not reset by the client ran once and completed with its handler's status and message; server-race: directed bursts {PING ack, reset/finish of an older stream, new streams} right after the first GOAWAY, optionally with a tap handle that yields inside header processing; non-trivial = a stream was above a GOAWAY id or an accepted stream completed after a GOAWAY (client) / a connection was drained (server); distinct = (mcs, connections, GOAWAY classes, retried, unavailable, racing) resp. (mode, ack mode, connections, streams opened before/between/after capped at 3, streams above F)",
 		Assumptions: []string{
 			"the yielding stats.Handler / tap handle only perturb scheduling (public callbacks, no state touched); no verdict depends on them",
 			"the scripted server is consistent: it never declares unprocessed a stream it has already answered, and it answers every stream it accepted",
